@@ -62,7 +62,7 @@ def subterms(t):
 
 _TAGS = {'const', 'param', 'name', 'attr', 'sub', 'slice', 'call', 'binop', 'unop', 'cmp', 'boolop',
          'ifexp', 'tuple', 'list', 'set', 'dict', 'comp', 'bv', 'elem', 'item', 'phi', 'setitem',
-         'mut', 'lambda', 'localfn', 'exc', 'unknown', 'star', 'fstr', 'yield', 'truth', 'not', 'idx', 'tryfail'}
+         'mut', 'lambda', 'localfn', 'exc', 'unknown', 'star', 'fstr', 'yield', 'truth', 'not', 'idx', 'tryfail', 'carried'}
 
 
 def contains(t, sub):
@@ -241,6 +241,8 @@ def show(t, depth=0):
         return '$%d_%d' % (t[1], t[2])
     if tag == 'elem':
         return 'each(%s)' % show(t[1], d)
+    if tag == 'carried':
+        return '<carried#%d>' % t[2]
     if tag == 'idx':
         return 'index(%s)' % show(t[1], d)
     if tag == 'item':
